@@ -341,10 +341,16 @@ def restart (alive : Bool) (s : Sys) : Option Sys :=
   | none => none
   | some s1 => refresh (newProcess s1)
 
+/-- the register file Linux gives a new thread, as PTRACE_PEEKUSER shows it: `copy_thread` drops the breakpoints
+(DR0-3 read 0 and nothing is armed) but copies `thread.ptrace_dr7`, the value reported as DR7, from the parent -/
+def kernelNewThread (parent : Img) : Img := { dr7 := parent.dr7 }
+
 /-- first handling of a thread the tracer did not know: `tracee_ctl.add` + `distribute_to_tracee`
-(`last_seen_state`, when there is one, is written to the new thread; otherwise its cleared registers stay) -/
+(`last_seen_state`, when there is one, is written to the new thread; otherwise what the kernel gave it stays — the
+main thread stands for the parent; while `last_seen_state` is `None` no register of the process has been written
+since it started, so it does not matter when the parent's DR7 is looked at) -/
 def register (s : Sys) (tid : Nat) : Sys :=
-  { s with newborn := s.newborn.filter (· != tid), others := s.others ++ [s.last.getD {}] }
+  { s with newborn := s.newborn.filter (· != tid), others := s.others ++ [s.last.getD (kernelNewThread s.main)] }
 
 def step (s : Sys) : Op → Res × Sys
   | .addMem a sz c => addMem s a sz c
@@ -353,8 +359,8 @@ def step (s : Sys) : Op → Res × Sys
   | .rmAddr a => rmRes (removeWhere s (fun w => w.hw.addr == a)) s
   | .rmExpr e => rmRes (removeWhere s (fun w => w.expr == some e)) s
   | .clone =>
-    -- the kernel starts a new thread with cleared debug registers; the tracer copies `last_seen_state`
-    (.done, { s with others := s.others ++ [s.last.getD {}] })
+    -- the kernel starts the new thread with `kernelNewThread`; the tracer copies `last_seen_state`
+    (.done, { s with others := s.others ++ [s.last.getD (kernelNewThread s.main)] })
   | .spawn t => (.done, if s.newborn.contains t then s else { s with newborn := s.newborn ++ [t] })
   | .evClone t =>
     -- `if self.tracee_ctl.tracee_mut(new_thread_id).is_none() { add; wait_one; distribute_to_tracee }`
